@@ -893,17 +893,23 @@ impl Broker {
     }
 
     fn reply(&mut self, ch: u16, method: AMQPClass) {
+        let _ = self.reply_b(ch, method);
+    }
+
+    /// returns false when a scripted reaction replaced the reply
+    fn reply_b(&mut self, ch: u16, method: AMQPClass) -> bool {
         // a close request is always answered: scripted reactions do not replace CloseOk
         let scripted = !matches!(method, AMQPClass::Channel(Ch::CloseOk(_)));
         let (req_no, answer) = self.begin_request_x(ch, scripted);
         if !answer {
-            return;
+            return false;
         }
         self.stats.replies += 1;
         let _ = class_of_reply(&method);
         let t = self.think();
         let f = Self::m(ch, method.clone());
         self.enqueue_after(t, ch, vec![f], SentKind::Reply { ch, req_no, method });
+        true
     }
 
     /// count a request that gets no reply (nowait) — nothing to do, kept for symmetry
@@ -1387,9 +1393,15 @@ impl Broker {
                     };
                     let cs = self.chans.entry(ch).or_default();
                     cs.consumers.push((tag.clone(), true, false));
-                    let before = self.script_fired.clone();
-                    self.reply(ch, AMQPClass::Basic(B::ConsumeOk(basic::ConsumeOk { consumer_tag: tag.clone() })));
-                    let _ = before;
+                    let answered = self.reply_b(ch, AMQPClass::Basic(B::ConsumeOk(basic::ConsumeOk { consumer_tag: tag.clone() })));
+                    if !answered {
+                        // the scripted reaction replaced the ConsumeOk: the consumer does not exist, nothing
+                        // may be delivered to it (the slot stays so that "nth consumer" keeps its meaning)
+                        if let Some(c) = self.chans.get_mut(&ch).and_then(|cs| cs.consumers.last_mut()) {
+                            c.1 = false;
+                        }
+                        return;
+                    }
                     // deliveries follow the ConsumeOk on the same channel queue
                     let n = self.cfg.deliveries_min
                         + if self.cfg.deliveries_max > self.cfg.deliveries_min {
